@@ -373,17 +373,20 @@ def run_relink(kind, cmdw, cmdr):
         t = Target(device_type=0, blocksize=512, nblocks=1 << 24, vendor=b"VERIF   ", product=("DISK-%d" % g).encode().ljust(16), revision=b"0001")
         disks[g] = t
         return t
-    node = nodes.Node(mk, symlink="repoint" if kind == "repoint" else True)
+    node = nodes.Node(mk, symlink="repoint" if kind == "repoint" else True if kind != "reopen" else False)
     dev = None
     try:
-        dev = init_device(node.path, True) if kind != "direct" else SCSIDevice(node.path, True)
+        dev = init_device(node.path, True) if kind not in ("direct", "reopen") else SCSIDevice(node.path, True, kind != "reopen")
         s = SCSI(dev, 512)
         a, b = bytearray(b"\xa1" * 512), bytearray(b"\xb2" * 512)
         getattr(s, cmdw)(5, 1, a)
         node.plug()
+        if kind == "reopen":
+            # replug detection is off; the caller re-attaches by hand the simple way: dev.open() (no close() first)
+            dev.open()
         getattr(s, cmdw)(6, 1, b)
         got = bytes(getattr(s, cmdr)(6, 1).datain)
-        where = "%s/%s through a %s path after the path was moved to another disk" % (cmdw, cmdr, "re-pointed link" if kind == "repoint" else "replaced node behind a link")
+        where = "%s/%s through a %s path after the path was moved to another disk" % (cmdw, cmdr, "re-pointed link" if kind == "repoint" else "replaced node re-opened by hand with dev.open()" if kind == "reopen" else "replaced node behind a link")
         if got != bytes(b):
             out.append(("sgio/relink/readback", "%s: read back %s..., written %s..." % (where, got[:4].hex(), bytes(b)[:4].hex())))
         if disks[2].block_at(6) != bytes(b) or disks[1].block_at(6) == bytes(b):
@@ -488,7 +491,7 @@ def run_partition(part, tier, seed):
                         acc.traces += 1
         return acc
     if part[0] == "relink":
-        for kind in ("repoint", "replace", "direct"):
+        for kind in ("repoint", "replace", "direct", "reopen"):
             for cmdw, cmdr in (("write10", "read10"), ("write12", "read12"), ("write16", "read16"), ("write10", "read16")):
                 case = ["relink", kind, cmdw, cmdr]
                 acc.case(case, nontrivial=True, key=repr(case))
